@@ -1,6 +1,7 @@
 // Correspondence harness: runs the implementation in /repo on a cases file and prints one
 // canonical token tree per case (grammar: /verif/coq/Model/Canon.v).
 mod enums;
+mod shape;
 use ais::messages::radio_status::{RadioStatus, SubMessage, SyncState};
 use ais::messages::navigation::{Accuracy, ManeuverIndicator};
 use ais::messages::types::{AssignedMode, Dte, ShipType};
@@ -302,7 +303,32 @@ fn unhex(s: &str) -> Vec<u8> {
     (0..s.len() / 2).map(|i| u8::from_str_radix(&s[2 * i..2 * i + 2], 16).unwrap()).collect()
 }
 
+fn dump() {
+    // `--dump`: stdin lines `<h|m|u> <hex of an exploration input>`; prints the calls it denotes as cases
+    let stdin = std::io::stdin();
+    let stdout = std::io::stdout();
+    let mut out = std::io::BufWriter::new(stdout.lock());
+    for line in stdin.lock().lines() {
+        let line = line.unwrap();
+        let f: Vec<&str> = line.split(' ').collect();
+        if f.len() < 2 { continue; }
+        let bytes = unhex(f[1]);
+        match f[0] {
+            "h" => {
+                let calls = shape::history(&bytes);
+                if calls.is_empty() { continue; }
+                writeln!(out, "H").unwrap();
+                for c in calls { writeln!(out, "L {} {} {}", c.parser, c.decode as u8, shape::hex(&c.line)).unwrap(); }
+            }
+            "m" => writeln!(out, "M {}", shape::hex(&bytes)).unwrap(),
+            "u" => { let (fill, d) = shape::unarmor_case(&bytes); writeln!(out, "U {} {}", fill, shape::hex(&d)).unwrap(); }
+            _ => {}
+        }
+    }
+}
+
 fn main() {
+    if std::env::args().nth(1).as_deref() == Some("--dump") { return dump(); }
     std::panic::set_hook(Box::new(|_| {}));
     let stdin = std::io::stdin();
     let stdout = std::io::stdout();
